@@ -104,6 +104,9 @@ func Command(name string, arg ...string) *Cmd {
 }
 
 func (c *Cmd) Start() error {
+	// starting a program takes time: other threads run between the decision to start a hook and
+	// whatever the caller does next
+	mc.Yield("vexec.Start")
 	w := GetWorld()
 	s := mc.Cur()
 	rec := &StartRec{Path: c.Path, Args: c.Args, Env: c.Env, Step: s.Steps, VTime: vtime.Elapsed(), Thread: mc.Me().Name}
